@@ -439,8 +439,8 @@ def coq_validate(ctx, name, terms):
 
 # =========================================================================== probes: validator vs checker and ORT
 def probe_models():
-    """hand-made models: (label, ModelProto, covered) — `covered` = the rule is one wf_model is supposed to cover, so
-    wf_model must accept exactly when checker AND onnxruntime accept"""
+    """hand-made models: (label, ModelProto[, "conservative"]): wf_model must accept exactly when onnx.checker AND
+    onnxruntime accept; for the probes marked "conservative" wf_model deliberately rejects a model both tools accept"""
     from onnx import helper as h, TensorProto as T
 
     def vi(n, shape=(2,), t=T.FLOAT):
@@ -465,6 +465,47 @@ def probe_models():
     P.append(("sibling-bodies-same-names", if_model([N("Abs", ["x"], ["t"])], [vi("t")], [N("Neg", ["x"], ["t"])], [vi("t")])))
     P.append(("body-reads-value-defined-after-owner", if_model([N("Abs", ["late"], ["t"])], [vi("t")], *neg_e,
                                                                post=[N("Relu", ["x"], ["late"])], outs=[vi("y"), vi("late")])))
+    # a body may not reuse ANY name of an enclosing scope (position independent) except its owners' outputs:
+    # onnx.checker only looks at names defined before the owner, but onnxruntime resolves bodies in its own topological
+    # order and rejects SOME models whose body reuses a name the parent defines later (see the Loop probe below);
+    # where both tools happen to accept, wf_model is deliberately conservative
+    P.append(("if-body-redefines-later-independent-parent-name", if_model([N("Abs", ["x"], ["late"])], [vi("late")], *neg_e,
+                                                                          post=[N("Relu", ["x"], ["late"])], outs=[vi("y"), vi("late")]),
+              "conservative"))
+    P.append(("if-body-redefines-later-dependent-parent-name", if_model([N("Abs", ["x"], ["late"])], [vi("late")], *neg_e,
+                                                                        post=[N("Relu", ["y"], ["late"])], outs=[vi("y"), vi("late")]),
+              "conservative"))
+
+    def i64(n):
+        return vi(n, (), T.INT64)
+
+    def bl(n):
+        return vi(n, (), T.BOOL)
+
+    def nested_loops(inner_cond, via_if):
+        inner = h.make_graph([N("Abs", ["s2"], ["s2o"]), N("Identity", ["cin2"], [inner_cond])], "inner",
+                             [i64("it2"), bl("cin2"), vi("s2")], [bl(inner_cond), vi("s2o")])
+        if via_if:
+            tg = h.make_graph([N("Identity", ["s1"], ["cap"]), N("Loop", ["trip", "cinit", "cap"], ["lo"], body=inner)], "then", [], [vi("lo")])
+            eg = h.make_graph([N("Neg", ["s1"], ["e"])], "else", [], [vi("e")])
+            mid_nodes = [N("If", ["cin1"], ["r"], then_branch=tg, else_branch=eg)]
+        else:
+            mid_nodes = [N("Identity", ["s1"], ["cap"]), N("Loop", ["trip", "cinit", "cap"], ["r"], body=inner)]
+        mid_nodes.append(N("Identity", ["cin1"], ["cond1"]))
+        mid = h.make_graph(mid_nodes, "mid", [i64("it1"), bl("cin1"), vi("s1")], [bl("cond1"), vi("r")])
+        g = h.make_graph([N("Loop", ["trip", "cinit", "x"], ["y"], body=mid)], "g", [vi("x")], [vi("y")],
+                         initializer=[h.make_tensor("trip", T.INT64, (), [2]), h.make_tensor("cinit", T.BOOL, (), [True])])
+        return mk(g)
+    P.append(("nested-loops-fresh-names", nested_loops("cond2", False)))
+    P.append(("loop-body-redefines-later-parent-name", nested_loops("cond1", False)))          # checker accepts, ORT rejects
+    P.append(("loop-in-if-body-redefines-later-grandparent-name", nested_loops("cond1", True), "conservative"))
+
+    def depth2_inner(inner_name):
+        it = h.make_graph([N("Abs", ["x"], [inner_name])], "it", [], [vi(inner_name)])
+        ie = h.make_graph([N("Neg", ["x"], ["ie"])], "ie", [], [vi("ie")])
+        return if_model([N("If", ["c"], ["t"], then_branch=it, else_branch=ie)], [vi("t")], *neg_e)
+    P.append(("depth2-body-reuses-grand-owner-output-name", depth2_inner("y")))
+    P.append(("depth2-body-reuses-own-owner-output-name", depth2_inner("t")))
     P.append(("body-output-is-outer-value", if_model([], [vi("x")], *neg_e)))
     P.append(("body-reads-undefined", if_model([N("Abs", ["nope"], ["t"])], [vi("t")], *neg_e)))
     P.append(("inner-initializer-shadows-outer", if_model([N("Abs", ["x"], ["t"])], [vi("t")], *neg_e,
@@ -553,6 +594,8 @@ def probe_models():
 def run_probes(ctx):
     import onnx2coq
     probes = probe_models()
+    conservative = {p[0] for p in probes if len(p) > 2}
+    probes = [(p[0], p[1]) for p in probes]
     ext = [external_checks(m.SerializeToString()) for _, m in probes]
     txt = COQ_HEADER
     for i, (_, m) in enumerate(probes):
@@ -572,11 +615,13 @@ def run_probes(ctx):
         n_acc += wfb
         table.append({"probe": label, "wf_model": wfb, "reason": msg.split("|")[0] if msg else None,
                       "checker": e["checker"] is None, "strict_inference": e["strict_inference"] is None, "ort": e["ort"] is None})
-        if wfb != accept_ext or tb != "true" or (wfb != (fb == "None")):
+        expect = False if label in conservative else accept_ext
+        if wfb != expect or tb != "true" or (wfb != (fb == "None")) or (label in conservative and not accept_ext):
             bad.append(table[-1])
     ctx.oblige(f"tie:validator-agrees-with-checker-and-ort-on-probes({len(probes)} hand-made models, {n_acc} accepted)",
                not bad, "tie", "" if not bad else json.dumps(bad[:6]))
     ctx.coverage["probes"] = {"n": len(probes), "accepted": n_acc, "rejected": len(probes) - n_acc,
+                              "deliberately_conservative": sorted(conservative),
                               "checker_only_rejections": sum(1 for t in table if not t["checker"] and t["ort"]),
                               "ort_only_rejections": sum(1 for t in table if t["checker"] and not t["ort"])}
     ctx.samples += table[:4]
@@ -873,7 +918,7 @@ def run(ctx):
         n_sub += st["subgraphs"]
         n_fsub += st["function_owned_subgraphs"]
         nontrivial += (st["subgraphs"] > 0 or st["functions"] > 0)
-        replay = {"kind": "export", "job": r["job"], "cfg": r["cfg"]}
+        replay = {"kind": "export", "job": r["job"], "cfg": r["cfg"], "key": r["key"]}
         ext = r["ext"] or {}
         if "harness" in ext:
             ctx.oblige(f"harness:external-checks:{cid}", False, "tie", ext["harness"])
@@ -961,18 +1006,15 @@ def run(ctx):
 
 
 # =========================================================================== replay
-def replay(path):
+def _replay_one(kind, ident, over):
     import onnx
-    r = json.load(open(path))["replay"]
-    kind, ident, over = r["job"]
-    print("job:", kind, ident, over)
+    import onnx2coq
     try:
         key = job_key(kind, ident)
         m = export_job(kind, ident, over)
     except Exception as e:  # noqa
         print("export now raises (rejected loudly):", _short(e))
         return 0
-    import onnx2coq
     data = m.SerializeToString()
     ext = external_checks(data)
     for t, v in ext.items():
@@ -985,5 +1027,23 @@ def replay(path):
     print("wf_model / table_ok / wf_first_bad:", res[0], problems)
     bad_ext = any(v is not None and not (t == "ort" and ort_tool_limit(v)) for t, v in ext.items())
     bad_wf = res[0] is None or not res[0][0]
-    print("case", key, "still failing" if (bad_ext or bad_wf) else "passes now")
+    print("case", key, over, "still failing" if (bad_ext or bad_wf) else "passes now")
     return 1 if (bad_ext or bad_wf) else 0
+
+
+def replay(path):
+    """re-export the recorded job on the current tree and re-run the validator and the three external tools"""
+    import exports
+    r = json.load(open(path))["replay"]
+    kind, ident, over = r["job"]
+    print("job:", kind, ident, over, r.get("key"))
+    idents = [ident]
+    if kind == "reg" and r.get("key"):
+        # the registry position is not stable across edits of /repo: resolve by key (a key may name several testcases)
+        items = exports.registry_items()
+        if not (0 <= ident < len(items) and exports.tp_key(items[ident]) == r["key"]):
+            idents = [i for i, tp in enumerate(items) if exports.tp_key(tp) == r["key"]]
+            if not idents:
+                print("testcase no longer registered:", r["key"])
+                return 0
+    return max(_replay_one(kind, i, over) for i in idents)
